@@ -281,6 +281,15 @@ func runC09(c C09Case, ev *Evid) (fs []Finding) {
 			return
 		}
 	default:
+		ambTotal := 0
+		for _, fe := range exps {
+			ambTotal += len(fe.amb)
+		}
+		if err != nil && errors.Is(err, cmd.ErrDiffFound) && ambTotal > 0 {
+			// Z4: the only candidate differences are +0 vs -0 slots: either verdict is accepted
+			ev.Class("Z4-signed-zero-only")
+			break
+		}
 		if err != nil {
 			add("verdict-spurious", "%s: no slot differs but the result is %v\n%s", desc, err, tail(readText(filepath.Join(dir, "diff-fwd.txt")), 500))
 			return
